@@ -55,6 +55,8 @@ def rand_case(rng, kinds=("hash", "probe", "counter"), maxN=14, memo="False"):
         c["pred"] = "steps:%d" % rng.randint(1, 5)   # zero-step runs belong to C06
     else:
         c["T"] = rng.randint(1, 7)
+    if rng.random() < 0.25:
+        c["layout"] = rng.choice(["F", "rev", "str"])
     return c
 
 
